@@ -246,13 +246,45 @@ def gen_unconstrained(tier, rng):
         hi = lo + rng.choice([1.5, 2.5, 3.5, 1.25, 1.75, 2.25, 6.5, 10.5, float(rng.randint(2, 40)), rng.randint(3, 80) / 2.0]) * st
         out.append("%d ; F %s %s ; solve ; to 400" % (prec, fm.f2h(lo), fm.f2h(hi)))
     return out
+def gen_witness_mul(tier, rng):
+    """one product s = x * y posted through Model::mul (Mul propagator, props/mul.rs) around a witness whose product is exactly
+    representable (x a small integer or half-integer, y a multiple of 1/4), with the operand boxes chosen where the divisor guard
+    Val::range_contains_unsafe_divisor decides: a float operand box that ENDS AT 0 (either side), crosses 0, or stays away from it;
+    then two inequalities on s that the witness satisfies with a margin of at least 1/2 (far above every step used here)"""
+    n = 400 if tier == "quick" else 8000
+    out = []
+    while len(out) < n:
+        prec = rng.choice([1, 2, 3, 4, 6])
+        sgn = rng.choice([1, -1])
+        wy = Fraction(sgn * rng.randint(1, 12), 4)                      # witness of the float operand: never 0
+        shape = rng.choice(["end0", "end0", "end0", "cross", "away"])
+        far = Fraction(rng.randint(1, 8)) + abs(wy)
+        if shape == "end0": lo, hi = (Fraction(0), far) if sgn > 0 else (-far, Fraction(0))
+        elif shape == "cross": lo, hi = (-Fraction(rng.randint(1, 3)), far) if sgn > 0 else (-far, Fraction(rng.randint(1, 3)))
+        else: lo, hi = (Fraction(1, 4), far) if sgn > 0 else (-far, -Fraction(1, 4))
+        ydecl = "F %s %s" % (hq(lo), hq(hi))
+        if rng.random() < 0.6:
+            wx = Fraction(rng.randint(1, 12)); xl, xh = int(wx) - rng.randint(0, 6), int(wx) + rng.randint(0, 10)
+            if rng.random() < 0.7: xl = max(xl, 1)
+            xdecl = "I %d %d" % (xl, xh)
+        else:
+            wx = Fraction(rng.randint(-8, 24), 2)
+            xdecl = "F %s %s" % (hq(wx - rng.randint(0, 6)), hq(wx + rng.randint(0, 10)))
+        ws = wx * wy
+        decls = [xdecl, ydecl] if rng.random() < 0.5 else [ydecl, xdecl]
+        a, b = rng.choice([("x0", "x1"), ("x1", "x0")])
+        m1 = Fraction(rng.choice([1, 2, 4, 10]), 2); m2 = Fraction(rng.choice([1, 2, 4, 10, 40]), 2)
+        posts = ["arith mul %s %s" % (a, b)]
+        rows = ["lin le %s x2 %s" % (hq(Fraction(1)), hq(ws + m1)), "lin le %s x2 %s" % (hq(Fraction(-1)), hq(-(ws - m2)))]
+        if rng.random() < 0.3: rows = rows[:1] if rng.random() < 0.5 else rows[1:]
+        out.append(" ; ".join([str(prec), "|".join(decls)] + posts + rows + ["solve", "to 400"]))
+    return out
+
 FAMILIES = [
+    Family("fwitness_mul", "solvef", gen_witness_mul, split=c06.split_oracle, nontrivial=lambda c, i: True, prop_judge=judge),
     Family("fwitness", "solvef", gen_witness, split=c06.split_oracle, nontrivial=lambda c, i: True, prop_judge=judge),
     Family("fwitness_eq", "solvef", gen_witness_eq, split=c06.split_oracle, nontrivial=lambda c, i: True, prop_judge=judge),
     Family("fwitness_int_const", "solvef", gen_witness_int_const, split=c06.split_oracle, nontrivial=lambda c, i: True, prop_judge=judge),
     Family("funconstrained", "solvef", gen_unconstrained, split=c06.split_oracle, nontrivial=lambda c, i: True, prop_judge=judge),
 ]
-FAMILIES[0].classify = classify
-FAMILIES[1].classify = classify
-FAMILIES[2].classify = classify
-FAMILIES[3].classify = classify
+for _f in FAMILIES: _f.classify = classify
